@@ -193,6 +193,23 @@ def engine_bin(engine):
 
 
 def run_engine_gen(engine, tier, seed, outpath, extra=None):
+    shards = ENGINES.get(engine, {}).get("shards", 1)
+    if shards > 1 and not (extra and "--shard" in extra):
+        # thread-heavy engine: run the case list in `shards` processes, each taking every n-th case
+        def one(k):
+            return run_engine_gen(engine, tier, seed, "%s.%d" % (outpath, k), (extra or []) + ["--shard", "%d/%d" % (k, shards)])
+        with ThreadPoolExecutor(max_workers=shards) as ex:
+            res = list(ex.map(one, range(shards)))
+        with open(outpath, "w") as out:
+            for k in range(shards):
+                part = "%s.%d" % (outpath, k)
+                if os.path.exists(part):
+                    with open(part) as f:
+                        for line in f:
+                            out.write(line)
+                    os.remove(part)
+        bad = [r for r in res if r[0] != 0]
+        return (bad[0] if bad else (0, ""))
     env = {"VERIF_SEED": str(seed)}
     limit = 900 if tier == "quick" else 6 * 3600
     with open(outpath, "w") as f:
